@@ -193,7 +193,7 @@ def call_contract(ex, c, bound, st, n):
     for cl in c.requires:
         if cl.label.startswith('engine_') and caller_policy != 'engine':
             continue      # ownership discipline of engine code; wrappers forward records they hold
-        g = ex.ceval(cl.expr, callee, callee, None)
+        g = ex.ceval(cl.expr, callee, callee, None, owner=c)
         ex.oblige(st, 'call.%s.%s.%s' % (c.name, cl.label, ex.site(n)), g, n, kind='pre', note='precondition of %s' % c.target)
         ex.assume(st, g)
     for cl in c.assumes:
@@ -215,20 +215,20 @@ def call_contract(ex, c, bound, st, n):
             result = SV(c.ret, fresh('ret_' + c.target.split('.')[-1], sort_of(c.ret)))
             ex.assume_wf(st, result)
         for tgt, val in c.ghost_updates:
-            v = ex.cvalue(val, post, pre, result)
+            v = ex.cvalue(val, post, pre, result, owner=c)
             if isinstance(tgt, ast.Attribute):
-                obj = ex.cvalue(tgt.value, post, pre, result)
+                obj = ex.cvalue(tgt.value, post, pre, result, owner=c)
                 cur = ex.get_field(post, obj, tgt.attr)
                 ex.assume(st, Eq(cur.t, ex.coerce(v, cur.pt).t))
             elif isinstance(tgt, ast.Call) and isinstance(tgt.func, ast.Name) and tgt.func.id in ('is_held', 'is_owned_below'):
-                x = ex.cvalue(tgt.args[0], post, pre, result)
+                x = ex.cvalue(tgt.args[0], post, pre, result, owner=c)
                 gname = '$held' if tgt.func.id == 'is_held' else '$wowned'
                 arr = ex.ghost_set(st, gname)
                 st.heap[gname] = Store(arr, x.t, v.t)
             else:
                 raise OutOfSubset('ghost_update target')
         for cl in c.ensures:
-            ex.assume(st, ex.ceval(cl.expr, post, pre, result))
+            ex.assume(st, ex.ceval(cl.expr, post, pre, result, owner=c))
         return result
     cl = c.raises[which - 1]
     msg = SV(TStr, fresh('excmsg', STR))
@@ -239,7 +239,7 @@ def call_contract(ex, c, bound, st, n):
         for f, pt in ci.fields.items():
             fields[f] = SV(pt, fresh('exc_' + f, sort_of(pt)))
             post.locals['__exc_' + f] = fields[f]
-    ex.assume(st, ex.ceval(cl.expr, post, pre, None))
+    ex.assume(st, ex.ceval(cl.expr, post, pre, None, owner=c))
     raise PyExc(ExcV(cl.extra, msg=msg, fields=fields))
 
 
@@ -274,7 +274,7 @@ def havoc_for_call(ex, st, pre, items, ctor_ghost=()):
                         ex.harr(st, nm, ArrS(INT, sort_of(fpt)))
                         names.add(nm)
             for nm in sorted(names):
-                if ex._family_array(nm, v) and nm.split('.')[-1] not in ('kind', 'jmv', 'nullw', 'kidx'):
+                if ex._family_array(nm, v) and nm.split('.')[-1] not in ('kind', 'jmv', 'nullw', 'kidx', 'hist', 'finalv'):
                     st.heap[nm] = fresh('hfam_' + nm.split('.')[-1].replace(':', '_').replace('(', '').replace(')', '').replace(' ', '_'), st.heap[nm].sort)
             continue
         if kind == 'field':
@@ -732,6 +732,7 @@ def list_comp(ex, n, st):
     extra = st.pc[npc:]
     del st.pc[npc - 1:]
     st.locals = saved
+    st.heap['$alloc'] = heap_before.get('$alloc', st.heap.get('$alloc'))     # the element is pure: nothing it allocated survives
     if v.pt.kind in ('pytuple', 'none', 'emptylist'):
         raise OutOfSubset('comprehension element type %r' % (v.pt,))
     res = fresh('comp', SeqS(sort_of(v.pt)))
